@@ -645,14 +645,7 @@ def run(ctx):
         ctx.verify(eng, [con], min_obligations={con.key: 4})
     ctx.assumptions.append("use_defaults: scale_param is abstracted as a function of its (non-None) argument")
     bad = cw.audit_walkers()
-    ctx.obligations += 1
-    if bad:
-        from vcheck.core import Violation
-        ctx.violations.append(Violation("walker-frame-audit", f"a PDK walker writes connections or names: {bad[:3]}",
-                                        {"property": "C15", "obligation": "frame/walker-audit", "offenders": bad}, False))
-    else:
-        ctx.discharged += 1
-        ctx.by_backend["ast-audit"] = ctx.by_backend.get("ast-audit", 0) + 1
+    ctx.frame_audit("walker-frame-audit", bad, "a PDK walker writes connections or names")
     ctx.run_bounded("device-tables", cases(ctx.tier, ctx.seed), check_case,
                     rule="for each of the four PDKs: every (type, family, threshold) triple (2x6x7), every transistor "
                          "model name plus an unknown one, every resistor/capacitor/diode/bipolar table entry with "
